@@ -264,6 +264,17 @@ def execute(case, ctx):
             return 0
         if n == K + 1:
             probe("extra_complete_snapshot_exposed")
+            # a snapshot is exposed although its write had not completed. Where exactly was the write cut?
+            e_ = len(complete[K + 1]) if (model_S is MS and K + 1 < len(complete)) else None
+            if e_ is not None:
+                if K == 0 and e_ - 12 <= len(img) < e_:
+                    # known finding: the very first snapshot has no predecessor to check its trailer against; it is exposed as soon as its END marker is on disk
+                    viol("open", "first snapshot exposed although its trailer had not been written completely", "%s: file has %d of %d bytes" % (tag, len(img), e_),
+                         key="open:first-snapshot-exposed-with-partial-trailer", point=tag)
+                else:
+                    viol("open", "a snapshot whose write had not completed is exposed", "%s: completed=%d exposed=%d, file has %d bytes, the snapshot being written would end at %d" % (tag, K, n, len(img), e_),
+                         key="open:incomplete-snapshot-exposed", point=tag)
+                    return None
         # content of the last two exposed snapshots (earlier ones read only bytes the crash never touched)
         for k in sorted(set([n - 1, max(0, n - 2), 0])):
             d = rb.S_diff(load_S(rebound, rb, cfg, sa, k), model_S[k])
